@@ -101,7 +101,7 @@ def generate(rng, tier):
     elif r < 0.6:
         scores = [list(scores[0]) for _ in range(size)]  # everything tied
     max_ts = rng.choice([None, None, rng.randint(0, 5)])
-    return {"grid": grid, "via": rng.choice(["dict", "plist"]), "reps": reps, "mode": mode, "scores": scores,
+    return {"sibling": rng.random() < 0.15, "grid": grid, "via": rng.choice(["dict", "plist"]), "reps": reps, "mode": mode, "scores": scores,
             "processes": rng.choice([2, 2, 3, 4, 8, 16, rng.randint(2, 16)]), "max_ts": max_ts,
             "base_stop": rng.randint(0, 4), "spread": rng.randint(1, 3), "pool": gen_pool(rng, size)}
 
@@ -138,6 +138,9 @@ def aggregate(rec_specs, mode):
 def run_search(ctx, sc, processes, label):
     names = [g[0] for g in sc["grid"]]
     raw = {n: decode_values(s) for n, s in sc["grid"]}
+    if sc.get("sibling"):
+        sib = B.ParameterList(raw)          # a sibling list built from the same dict and edited: must not leak into `raw`
+        sib.add_parameter("zz_extra", [1, 2])
     params = B.ParameterList(raw) if sc["via"] == "plist" else raw
     combos = [dict(zip(names, vals)) for vals in itertools.product(*[as_list(s) for _, s in sc["grid"]])]
     sigs = [W.sig_of(c) for c in combos]
